@@ -161,6 +161,20 @@ CHECKS["C19"] = dict(
     technique="Lean 4 proof by invariant over call histories (refinement: shared object = fresh object) + differential correspondence of histories",
     design="§4 C19", note=NOTE_NTT)
 
+CHECKS["C18"] = dict(
+    text=("PARTIAL BY NATURE. Machine-checked (Props/C18.lean): (1) allocation discipline of NTT_Goldilocks — for EVERY constructor "
+          "argument and EVERY history of NTT/INTT/extendPol calls (any shapes, with/without caller buffer, any block count) the sequence "
+          "of malloc/free/new[]/delete[] calls of constructor + calls + destructor releases each block exactly once with the deallocator "
+          "of its family and releases nothing else (hand model Model/NttAlloc.lean; the pinned tree's delete-vs-delete[] mismatch D10 is "
+          "a non-clean trace); (2) scratch extents of NTT(): a block of ceil(ncols/nblock) columns always fits the documented size*ncols "
+          "buffer and the blocks tile the columns; (3) frame conditions re-exported from C17/C08. Tie of (1): the harness records the "
+          "library's REAL allocator calls (linker-wrapped malloc/free, replaced operator new[]/delete[]/delete) over the life of an object "
+          "and the recorded trace is compared word for word with the model's, and re-checked for cleanliness independently. NOT proved, "
+          "only observed: absence of out-of-extent accesses / UB on the shape grids of C03-C05, C07-C09, C17, C19 re-run on exact-size "
+          "buffers with redzones + PROT_NONE guard pages (O1) and under AddressSanitizer+UBSan with exact heap blocks."),
+    technique="Lean 4 proof by invariant over call histories of a hand-written allocation model + allocator-trace correspondence; sanitizer/guard-page campaigns as observation only",
+    design="§4 C18", note=NOTE_BASE + " Uninitialised reads, alignment, integer/shift UB inside the C++ and stack VLAs are outside every model (observed by UBSan/ASan only; no MSan).")
+
 CHECKS["C17"] = dict(
     text=("Machine-checked theorems: (1) Props/C17Gen.lean, GENERATED on every run — for each of the 160 copy/add/sub/mul "
           "_batch/_avx/_avx512 overloads a structural equality between the body translated from the current source and "
